@@ -751,9 +751,33 @@ class Provides(Declaration):  # Really named ProvidesClass
         Declaration.__init__(
             self, *self._add_interfaces_to_cls(interfaces, cls)
         )
+        self.__derived_bases = self.__bases__
 
     # Added to by ``moduleProvides``, et al
     _v_module_names = ()
+
+    # The bases we derived from the arguments we were created with.
+    __derived_bases = None
+
+    def changed(self, originally_changed):
+        if (
+            originally_changed is not self and
+            self.__bases__ == self.__derived_bases
+        ):
+            # Something below us changed, typically the declarations of
+            # our class. The interfaces it implemented when we were
+            # created were left out of our bases as redundant; they may
+            # not be redundant anymore (or others may have become so).
+            # (Bases somebody assigned to us directly are left alone.)
+            bases = self.__derived_bases = tuple(_normalizeargs(
+                self._add_interfaces_to_cls(self.__args[1:], self._cls)
+            ))
+            if bases != self.__bases__:
+                # This calls us again with ``originally_changed`` being
+                # ourself, which does the rest.
+                self.__bases__ = bases
+                return
+        super().changed(originally_changed)
 
     def __repr__(self):
         # The typical way to create instances of this object is via calling
